@@ -496,3 +496,6 @@ def check_C08(rep, fl):
     props_store.check_em_update(rep, fl)
     props_store.check_em_remove(rep, fl)
     props_store.check_em_cleanup(rep, fl)
+    # ... and that the sweep runs at all, from the start and for every way an entry can get its TTL: the ticker is
+    # created before the loop, its arm calls the handler, every swept item goes to on_evict once
+    props_store.check_tick(rep, fl)
